@@ -34,3 +34,12 @@ Lemma src_rrect_translate_mut_is_translate r d : src_RoundedRectangle_translate_
 Proof. reflexivity. Qed.
 Lemma src_polyline_translate_mut_is_translate p d : src_Polyline_translate_mut p d = src_Polyline_translate p d.
 Proof. reflexivity. Qed.
+
+(* round 5: the by-value halves in closed form (Polyline: the model's polyline_translate) *)
+Lemma src_circle_translate_eq c d : src_Circle_translate c d = Circ (padd (c_tl c) d) (c_d c).
+Proof. reflexivity. Qed.
+Lemma src_ellipse_translate_eq e d : src_Ellipse_translate e d = Ell (padd (e_tl e) d) (e_sz e).
+Proof. reflexivity. Qed.
+Lemma src_polyline_translate_eq p d :
+  src_Polyline_translate p d = Build_Polyline (padd (Polyline_translate p) d) (Polyline_vertices p).
+Proof. reflexivity. Qed.
